@@ -12,6 +12,8 @@ CONSTANTS
   PeerH = 0
   BugClearAlways = FALSE
   BugKeepOld = FALSE
+  QuirkLenDrift = TRUE
+  QuirkNoDiscardRecheck = TRUE
 VIEW view
 PROPERTIES Converges
 CHECK_DEADLOCK FALSE
